@@ -23,9 +23,11 @@ import (
 
 	"github.com/nyaruka/gocommon/dates"
 	"github.com/nyaruka/gocommon/i18n"
+	"github.com/nyaruka/gocommon/jsonx"
 	"github.com/nyaruka/goflow/assets"
 	"github.com/nyaruka/goflow/assets/static"
 	"github.com/nyaruka/goflow/envs"
+	"github.com/nyaruka/goflow/excellent/functions"
 	"github.com/nyaruka/goflow/excellent/operators"
 	"github.com/nyaruka/goflow/excellent/types"
 	"github.com/nyaruka/goflow/flows"
@@ -281,6 +283,9 @@ var dtCorpus = []string{
 	"1/2/2003 1730", "1/2/2003 17:30:45.5", "1/2/2003 17:30:45,5", "1/2/2003 17:3", "1/2/2003 173", "1/2/2003 x5:30", "1/2/2003 5:30x", "1/2/2003 _5:30", "1/2/2003 5:30_",
 	"a1/2/2003", "1/2/2003a", "1/2/20033", "11/22/2003", "22/11/2003", "2003/11/22", "2003.11.22 10:20", "03.11.22", "1\\2\\2003", "1_2_2003", "1 2 2003", "1-2/2003", "1--2-2003",
 	"32/1/2003 1/2/2003", "1/13/2003 13/1/2003", "0/1/2003", "29/2/2019 28/2/2019", "1/2/2003 25:00 23:00", "١/٢/2003", "1/2/2003 ٥:30", "1/2/2003 5:30",
+	"24:30", "12:60", "23:59:60", "24:00:00.000001", "24:00:01", "23:60", "00:60", "0:0:60", "24:60", "1/2/2003 24:30", "1/2/2003 12:60", "1/2/2003 23:59:60",
+	"9999-12-31 24:30", "31-12-9999 24:30", "12-31-9999 23:60", "9999-12-31 23:59:60", "2020-01-01T00:00+24:60", "2020-01-01T00:00:00-24:60", "2020-01-01T00:00:00+24:59",
+	"2020-01-01T00:00:00+23:60", "2020-01-01T00:00:00+24:00", "2020-01-01T00:00:00.5-24:00", "9999-12-31T23:59:59-24:00", "0001-01-01T00:00:00+24:00",
 	"12-31-1999 11:59 pm", "1999-12-31 11:59:59 pm", "31-12-1999 23:59:59", "01-01-0001 00:00", "0001-01-01 12:00 am", "12-31-9999 11:59:59 pm",
 }
 
@@ -555,6 +560,7 @@ func runDates(o *hx.Opts, res *hx.Result, r *hx.Rand) {
 			b := bx.Native()
 			back = &b
 			res.Dist("dtext:datetime-accepted")
+			checkParsedDatetime(res, e, bx, input)
 		} else {
 			res.Dist("dtext:datetime-rejected")
 		}
@@ -573,18 +579,32 @@ func runDates(o *hx.Opts, res *hx.Result, r *hx.Rand) {
 				fb = &b
 			}
 			w.add(coqField(e, fill, s, v, fb), input, fmt.Sprint(fb))
+			// whatever the engine stores for a text, it can read again
+			if v != nil {
+				res.OracleChecks++
+				vj, _ := jsonx.Marshal(v)
+				v2 := &flows.Value{}
+				if err := jsonx.Unmarshal(vj, v2); err != nil {
+					res.Fail("stored-field-value:json-not-read", input, fmt.Sprintf("FieldValues.Parse(%q) is written as %s, which cannot be read: %s", s, vj, err))
+				} else if (v.Datetime == nil) != (v2.Datetime == nil) || (v.Datetime != nil && !v.Datetime.Native().Equal(v2.Datetime.Native())) {
+					res.Fail("stored-field-value:json-roundtrip", input, fmt.Sprintf("FieldValues.Parse(%q) is written as %s and read back with another datetime", s, vj))
+				}
+			}
 		}
-		if i%2 == 0 {
+		fromCorpus := i < len(corpus)+len(dtCorpus)
+		if i%2 == 0 || fromCorpus {
 			dback := "None"
 			if bx, xerr := types.ToXDate(e.env, types.NewXText(s)); xerr == nil {
 				d := bx.Native()
 				dback = fmt.Sprintf("(Some (%s, %s, %s))", hx.Z(int64(d.Year)), hx.Z(int64(d.Month)), hx.Z(int64(d.Day)))
 			}
 			w.add(fmt.Sprintf("KDateParse %s %s %s", e.coq(), hx.Str(s), dback), input, dback)
-		} else {
+		}
+		if i%2 == 1 || fromCorpus {
 			tback := "None"
 			if bx, xerr := types.ToXTime(e.env, types.NewXText(s)); xerr == nil {
 				tback = coqTod(bx.Native())
+				checkParsedTime(res, e, bx, input)
 			}
 			w.add(fmt.Sprintf("KTimeParse %s %s", hx.Str(s), tback), input, tback)
 		}
@@ -610,6 +630,31 @@ func runDates(o *hx.Opts, res *hx.Result, r *hx.Rand) {
 		}
 		e.activate()
 		xd := types.NewXDate(dates.NewDate(y, m, d))
+		if dr.Chance(1, 3) || i < len(corpus) {
+			// date_from_parts with any day number: what it returns as a date is a date that survives its text forms
+			dd := d
+			if dr.Chance(1, 2) {
+				dd = hx.Pick(dr, []int{0, 28, 29, 30, 31, 32, 31, 30})
+			}
+			res.OracleChecks++
+			pin := map[string]any{"kind": "date_from_parts", "year": y, "month": m, "day": dd, "env": e.describe()}
+			if pd, isDate := functions.DateFromParts(e.env, y, m, dd).(*types.XDate); isDate {
+				for _, txt := range []string{pd.Render(), pd.Format(e.env)} {
+					if b, xerr := types.ToXDate(e.env, types.NewXText(txt)); xerr != nil || !b.Equals(pd) {
+						res.Fail("date-from-parts:value-not-equal-after-reread", pin, fmt.Sprintf("date_from_parts(%d, %d, %d) is written %q and re-read as %v", y, m, dd, txt, b))
+						break
+					}
+				}
+			}
+			// a date and its text convert to the same datetime
+			res.OracleChecks++
+			a, _ := types.ToXDateTime(e.env, xd)
+			b, _ := types.ToXDateTime(e.env, types.NewXText(xd.Render()))
+			if !a.Native().Equal(b.Native()) {
+				res.Fail("date-value-vs-its-text:datetime-differs", map[string]any{"kind": "date", "date": xd.Render(), "env": e.describe()},
+					fmt.Sprintf("datetime(d) = %s, datetime(text(d)) = %s", a.Native().Format(time.RFC3339), b.Native().Format(time.RFC3339)))
+			}
+		}
 		input := map[string]any{"kind": "date", "date": fmt.Sprintf("%04d-%02d-%02d", y, m, d), "env": e.describe()}
 		res.Eval(fmt.Sprintf("date:%d-%d-%d:%s", y, m, d, e.df), true)
 		backs := [2]string{"None", "None"}
@@ -689,6 +734,62 @@ func coqField(e *denv, fill dates.TimeOfDay, raw string, v *flows.Value, dt *tim
 		ez = zonePeriods(e.loc, *dt)
 	}
 	return fmt.Sprintf("KField %s %s %s %s %s %s %s %s", coqTable(ez), e.coq(), hx.Z(int64(fill.Hour)), hx.Z(int64(fill.Minute)), hx.Z(int64(fill.Second)), hx.Z(int64(fill.Nanos)), hx.Str(raw), r)
+}
+
+// A datetime the conversion of a text yields is a value like any other: its ISO text and its JSON form read back as
+// the same instant (microseconds), as long as its year is one the property speaks about.
+func checkParsedDatetime(res *hx.Result, e *denv, bx *types.XDateTime, input map[string]any) {
+	t := bx.Native()
+	if y := t.Year(); y < 1 || y > 9999 {
+		res.Dist("dtext:parsed-year-outside-1..9999")
+		return
+	}
+	_, off := t.Zone()
+	want := time.Unix(t.Unix(), int64(t.Nanosecond()/1000*1000))
+	judge := func(what string, b time.Time) {
+		if b.Equal(want) {
+			return
+		}
+		class := "parsed-datetime:" + what + "-roundtrip"
+		if off%60 != 0 && b.Sub(want) == time.Duration(off%60)*time.Second {
+			class = "iso-datetime-roundtrip:zone-offset-seconds-dropped"
+		}
+		res.Fail(class, input, fmt.Sprintf("the text converts to %s (zone offset %ds), whose %s form reads back as %s", t.Format(time.RFC3339Nano), off, what, b.Format(time.RFC3339Nano)))
+	}
+	res.OracleChecks++
+	txt := bx.Render()
+	if b2, xerr := types.ToXDateTime(e.env, types.NewXText(txt)); xerr != nil {
+		res.Fail("parsed-datetime:iso-text-not-reread", input, fmt.Sprintf("the text converts to a datetime that renders %q, which ToXDateTime rejects", txt))
+	} else {
+		judge("iso-text", b2.Native())
+	}
+	res.OracleChecks++
+	js, _ := bx.MarshalJSON()
+	y := &types.XDateTime{}
+	if err := y.UnmarshalJSON(js); err != nil {
+		res.Fail("parsed-datetime:json-not-read", input, fmt.Sprintf("the text converts to a datetime written as %s, which cannot be read: %s", js, err))
+	} else {
+		judge("json", y.Native())
+	}
+}
+
+// the same for a time of day: Render and Format(env) of the value re-read as an Equal value at the rendered precision
+func checkParsedTime(res *hx.Result, e *denv, bx *types.XTime, input map[string]any) {
+	tod := bx.Native()
+	for k, txt := range []string{bx.Render(), bx.Format(e.env)} {
+		res.OracleChecks++
+		want := dates.NewTimeOfDay(tod.Hour, tod.Minute, tod.Second, tod.Nanos/1000*1000)
+		if k == 1 {
+			want.Nanos = 0
+			if !e.seconds() {
+				want.Second = 0
+			}
+		}
+		b, xerr := types.ToXTime(e.env, types.NewXText(txt))
+		if xerr != nil || !b.Native().Equal(want) {
+			res.Fail("parsed-time:value-not-equal-after-reread", input, fmt.Sprintf("the text converts to the time %v, which is written %q and re-read as %v", tod, txt, b))
+		}
+	}
 }
 
 func coqTod(t dates.TimeOfDay) string {
